@@ -35,6 +35,36 @@ class TrashDirectoriesImpl(TrashDirectories):
             trash_dir_from_cli)
 
 
+class SecureTrashDirectories(TrashDirectories):
+    """
+    Leaves out $topdir/.Trash/$uid when $topdir/.Trash does not pass the
+    checks required by the trash specification (must be a sticky directory
+    and not a symbolic link), as trash-list, trash-empty and trash-rm do.
+    """
+    def __init__(self,
+                 trash_directories,  # type: TrashDirectories
+                 uid,  # type: int
+                 top_trash_dir_rules,
+                 ):
+        self.trash_directories = trash_directories
+        self.uid = uid
+        self.top_trash_dir_rules = top_trash_dir_rules
+
+    def list_trash_dirs(self,
+                        trash_dir_from_cli,  # type: Optional[str]
+                        ):
+        from trashcli.trash_dirs_scanner import top_trash_dir_valid
+        for path, volume in self.trash_directories.list_trash_dirs(
+                trash_dir_from_cli):
+            for top_path, _ in volume_trash_dir1(volume, self.uid):
+                if (path == top_path and not trash_dir_from_cli and
+                        self.top_trash_dir_rules.valid_to_be_read(path)
+                        != top_trash_dir_valid):
+                    break
+            else:
+                yield path, volume
+
+
 class TrashDirectories2:
     def __init__(self,
                  volume_of,  # type: VolumeOf
